@@ -152,6 +152,38 @@ func ruleSetupFamily(c *Ctx, rule string, fns []*ssa.Function, v4 map[*ssa.Funct
 					}
 				}
 				needMask := callee == "net.ParseCIDR" && v4[fn]
+				// net.ParseIP reports failure by a nil result only: an accepted value must be
+				// proved non-nil (x != nil, or To4(x)/To16(x) != nil, or a positive length)
+				nonNil := callee != "net.ParseIP"
+				for _, k := range sortedKeys(st.hist) {
+					f := st.hist[k]
+					if f.Kind == "nil" && !f.Val && (f.X == cs || f.X == "(net.IP).To4("+cs+")" || f.X == "(net.IP).To16("+cs+")") {
+						nonNil = true
+					}
+					if (f.Kind == "eq" || f.Kind == "lt") && strings.Contains(f.X+" "+f.Y, "len("+cs+")") {
+						if f.Kind == "eq" && f.Eq != "" && f.Eq != "0" {
+							nonNil = true
+						}
+					}
+				}
+				isV4 := callee != "net.ParseIP" || !v4[fn]
+				for _, k := range sortedKeys(st.hist) {
+					f := st.hist[k]
+					if f.Kind == "nil" && !f.Val && f.X == "(net.IP).To4("+cs+")" {
+						isV4 = true
+					}
+					if f.Kind == "eq" && f.Eq == "4" && f.X == "len("+cs+")" {
+						isV4 = true
+					}
+				}
+				if ipFact && nonNil && !isV4 {
+					r.bad = fmt.Sprintf("a DHCPv4 setup accepts (%s) the result of net.ParseIP without having proved it an IPv4 address (To4 != nil or len == 4)", where)
+					continue
+				}
+				if ipFact && !nonNil {
+					r.bad = fmt.Sprintf("the result of net.ParseIP is accepted (%s) without having been proved non-nil: an unparsable token yields a nil address that reaches the handler", where)
+					continue
+				}
 				if !ipFact {
 					r.bad = fmt.Sprintf("an address parsed by %s is accepted (%s) without its family (To4/To16/len) having been examined: a value of the other family reaches an encoder that slices it", callee, where)
 				} else if needMask && !maskFact {
